@@ -29,6 +29,138 @@ def normal_loops(cong):
     return {"repeat": [l1, l2]}
 
 
+REPN = {0: "none", 1: "normal", 2: "pad", 3: "reflect"}
+A_POS = "sample position together with the filter's offset (e, 1/2, (w-1)/2 + e, phase rounding) stays inside int32 16.16 (property: 'sample positions stay in the 16.16 range')"
+A_SIZE = "image width/height in [1, 2^26-1] (an a8r8g8b8 image pixman_image_create_bits can allocate)"
+A_REPMODEL = ("fetcher queries with NORMAL/REFLECT: repeat() is abstracted as an uninterpreted function with range [0,size) applied by code and spec alike "
+              "(what is decided is the ARGUMENT handed to repeat); repeat() itself is checked by the repeat.* jobs")
+A_BLEND = ("bits_image_fetch_pixel_bilinear_32 queries: bilinear_interpolation() is abstracted as an uninterpreted function of its six arguments "
+           "(decided: the four neighbours and two weights handed to it); the function itself is checked by the bilin.* jobs")
+A_COEF = "convolution: |coefficient| <= 4.0 (2^18), at most 3x3 taps, so the signed 16.16 total of a channel fits 32 bits"
+A_SEPCOEF = "separable convolution: |x/y vector entry| <= 2.0 (2^17) so the 16.16 product fits int32 and the total fits 32 bits"
+A_NONNEG = ("convolution jobs other than finding.*: the channel's signed total rounds to >= 0 (total + 0.5 >= 0); "
+            "the complement is the job finding.conv.negative_total")
+A_SHIFT = ("sepconv.* jobs run with --no-undefined-shift-check: '(x >> s) << s' with negative x is evaluated as the arithmetic shift every supported "
+           "compiler implements; the UB itself is the job finding.sepconv.negative_shift")
+A_KPARAM = "convolution: params[0], params[1] are whole numbers (w << 16, h << 16), as pixman_filter_create_separable_convolution and the tests build them"
+
+
+def rep_defs(rep):
+    return {"VC_REP": rep, "VC_REPMODEL": 1 if rep in (1, 3) else 0}
+
+
+def fetch_jobs(tier):
+    th = tier != "quick"
+    js = []
+    for rep in (0, 1, 2, 3):
+        asm = [A_POS, A_SIZE] + ([A_REPMODEL] if rep in (1, 3) else [])
+        d = dict(rep_defs(rep), VC_FILTER=0, VC_NG=1)
+        js.append(Job("nearest.%s" % REPN[rep], "C08/fetch.c", defines=d, cbmc_flags=SAFE, unwind=2, kind="proof",
+                      functions=["bits_image_fetch_pixel_nearest", "fetch_pixel_no_alpha_32"],
+                      domain="every 16.16 (x,y) > INT32_MIN, every image size, ghost image (1 free point + default)", timeout=400, min_props=3,
+                      assumptions=asm))
+        d = dict(rep_defs(rep), VC_FILTER=1, VC_NG=4, VC_BLENDMODEL=1)
+        js.append(Job("bilinear.%s" % REPN[rep], "C08/fetch.c", defines=d, cbmc_flags=SAFE, unwind=5, kind="proof",
+                      functions=["bits_image_fetch_pixel_bilinear_32", "fetch_pixel_no_alpha_32", "pixman_fixed_to_bilinear_weight"],
+                      domain="every 16.16 (x,y) >= INT32_MIN + 1/2, every image size, ghost image (4 free points + default)", timeout=600,
+                      min_props=3, assumptions=asm + [A_BLEND]))
+    # convolution: kernel sizes unrolled (bounded in kernel size), one channel per query
+    kernels = [(1, 1), (2, 2), (3, 3)] + ([(2, 1), (1, 3), (3, 2), (2, 3), (3, 1), (1, 2)] if th else [])
+    for (cw, cht) in kernels:
+        for rep in (0, 1, 2, 3):
+            for ch in (0, 1, 2, 3):
+                if not th and not ((cw, cht, rep, ch) in ((1, 1, 0, 3), (1, 1, 2, 0), (2, 2, 2, 1), (2, 2, 1, 3))):
+                    continue
+                d = dict(rep_defs(rep), VC_FILTER=2, VC_NG=max(cw, cht), VC_CW=cw, VC_CHT=cht, VC_CH=ch, VC_NONNEG=1)
+                js.append(Job("conv.%dx%d.%s.ch%d" % (cw, cht, REPN[rep], ch), "C08/fetch.c", defines=d, cbmc_flags=SAFE, unwind=max(cw, cht) + 1,
+                              kind="bounded", bound="kernel %dx%d (tap loops fully unrolled)" % (cw, cht),
+                              functions=["bits_image_fetch_pixel_convolution", "accum_32", "reduce_32", "fetch_pixel_no_alpha_32"],
+                              domain="every 16.16 (x,y), every image size, every coefficient in [-4,4], ghost image (%d free points + default), channel %d" % (max(cw, cht), ch),
+                              timeout=1800, min_props=3,
+                              assumptions=[A_POS, A_SIZE, A_COEF, A_NONNEG, A_KPARAM] + ([A_REPMODEL] if rep in (1, 3) else [])))
+    seps = [(1, 1, 0, 0), (2, 2, 1, 1), (3, 3, 1, 0)] + ([(2, 3, 2, 1), (3, 2, 0, 2), (1, 2, 2, 2)] if th else [])
+    for (cw, cht, xb, yb) in seps:
+        for rep in (0, 1, 2, 3):
+            for ch in (0, 1, 2, 3):
+                if not th and not ((cw, rep, ch) in ((1, 2, 3), (1, 3, 0))):
+                    continue
+                d = dict(rep_defs(rep), VC_FILTER=3, VC_NG=max(cw, cht), VC_CW=cw, VC_CHT=cht, VC_XB=xb, VC_YB=yb, VC_CH=ch, VC_NONNEG=1)
+                js.append(Job("sepconv.%dx%d.p%d%d.%s.ch%d" % (cw, cht, xb, yb, REPN[rep], ch), "C08/fetch.c", defines=d,
+                              cbmc_flags=SAFE + ["--no-undefined-shift-check"],
+                              unwind=max(cw, cht, 1 << xb, 1 << yb) + 1, kind="bounded",
+                              bound="kernel %dx%d, %d x %d phases (tap loops fully unrolled)" % (cw, cht, 1 << xb, 1 << yb),
+                              functions=["bits_image_fetch_pixel_separable_convolution", "accum_32", "reduce_32", "fetch_pixel_no_alpha_32"],
+                              domain="every 16.16 (x,y), every image size, every vector entry in [-2,2], ghost image, channel %d" % ch,
+                              timeout=3000, min_props=3,
+                              assumptions=[A_POS, A_SIZE, A_SEPCOEF, A_NONNEG, A_KPARAM, A_SHIFT] + ([A_REPMODEL] if rep in (1, 3) else [])))
+    # (x >> s) << s with x < 0: left shift of a negative value (UB before C23; UBSan: shift-base) — own job, default checks on
+    js.append(Job("finding.sepconv.negative_shift", "C08/fetch.c",
+                  defines=dict(rep_defs(2), VC_FILTER=3, VC_NG=1, VC_CW=1, VC_CHT=1, VC_XB=0, VC_YB=0, VC_CH=3, VC_NONNEG=1, VC_NOCHECK=1),
+                  cbmc_flags=SAFE, unwind=2, kind="bounded", bound="kernel 1x1, 1 phase",
+                  functions=["bits_image_fetch_pixel_separable_convolution"], domain="every 16.16 (x,y) incl. negative ones", timeout=1800,
+                  min_props=3, assumptions=[A_POS, A_SIZE, A_SEPCOEF, A_KPARAM]))
+    # KNOWN DEFECT (DESIGN.md §7): unsigned totals — same text without the "total rounds to >= 0" precondition
+    js.append(Job("finding.conv.negative_total", "C08/fetch.c",
+                  defines=dict(rep_defs(2), VC_FILTER=2, VC_NG=1, VC_CW=1, VC_CHT=1, VC_CH=1, VC_NONNEG=0), cbmc_flags=SAFE, unwind=2,
+                  kind="bounded", bound="kernel 1x1",
+                  functions=["bits_image_fetch_pixel_convolution", "accum_32", "reduce_32"],
+                  domain="1x1 kernel, every coefficient in [-4,4] incl. negative ones, PAD repeat, green channel", timeout=1200, min_props=3,
+                  assumptions=[A_POS, A_SIZE, A_COEF, A_KPARAM]))
+    return js
+
+
+A_STEP = ("iterators: every position v + i*u for i = 0..width (the code steps once past the last pixel: x += ux there would be a signed overflow "
+          "otherwise) is an int32 16.16 number > INT32_MIN, and so is the projected position")
+A_T3D = ("pixman_transform_point_3d replaced by a model: returns a harness-chosen vector/verdict and checks its argument is the pixel centre "
+         "(the transform itself is property C11)")
+A_ITER = "iterators: filter NEAREST, no alpha map, iter->x, iter->y in int16"
+
+
+def iter_jobs(tier):
+    th = tier != "quick"
+    js = []
+    for rep in ((0, 2, 3) if not th else (0, 1, 2, 3)):
+        wmax = 4 if th else 3
+        js.append(Job("affine.step.%s" % REPN[rep], "C08/iter.c", defines=dict(rep_defs(rep), VC_ITER=0, VC_NG=1, VC_WMAX=wmax), cbmc_flags=SAFE,
+                      unwind=wmax + 2, kind="bounded", bound="width <= %d (pixel loop unwound)" % wmax,
+                      functions=["__bits_image_fetch_affine_no_alpha", "bits_image_fetch_pixel_filtered", "bits_image_fetch_pixel_nearest"],
+                      domain="every v, (ux,uy), with/without transform, with/without mask, ghost index, ghost image", timeout=1800, min_props=6,
+                      assumptions=[A_STEP, A_T3D, A_ITER, A_SIZE] + ([A_REPMODEL] if rep in (1, 3) else [])))
+    xb, wb, wmax = (14, 6, 2) if th else (12, 4, 1)
+    js.append(Job("general.quotient.nonneg", "C08/iter.c",
+                  defines=dict(rep_defs(2), VC_ITER=1, VC_SIGNED=0, VC_XBITS=xb, VC_WBITS=wb, VC_NG=1, VC_WMAX=wmax), cbmc_flags=SAFE,
+                  unwind=wmax + 2, kind="bounded",
+                  bound="homogeneous x, y, ux, uy in [0, 2^%d), w, uw in [0, 2^%d) (w >= 1), width <= %d: the 64-bit division at full width does not finish" % (xb, wb, wmax),
+                  functions=["__bits_image_fetch_general", "bits_image_fetch_pixel_filtered", "bits_image_fetch_pixel_nearest", "fetch_pixel_general_32"],
+                  domain="non-negative homogeneous coordinates, PAD repeat, with/without transform and mask, ghost index", timeout=2400, min_props=6,
+                  assumptions=[A_STEP, A_T3D, A_ITER, A_SIZE,
+                               "general.quotient.nonneg: x, y >= 0 and w > 0 (the complement x < 0 or y < 0 is the job finding.general.negative_coordinate)"]))
+    # KNOWN DEFECT (DESIGN.md §7): unsigned division of a negative coordinate
+    js.append(Job("finding.general.negative_coordinate", "C08/iter.c",
+                  defines=dict(rep_defs(2), VC_ITER=1, VC_SIGNED=1, VC_XBITS=20, VC_WBITS=8, VC_NG=1, VC_WMAX=1), cbmc_flags=SAFE, unwind=3,
+                  kind="bounded", bound="|x|, |y| < 2^20, 1 <= w < 2^8, width <= 1",
+                  functions=["__bits_image_fetch_general"],
+                  domain="homogeneous x, y of either sign, w > 0, PAD repeat", timeout=1200, min_props=6,
+                  assumptions=[A_STEP, A_T3D, A_ITER, A_SIZE]))
+    return js
+
+
+def bilin_jobs(tier):
+    th = tier != "quick"
+    js = [Job("bilin.weight", "C08/bilin.c", defines={"VC_CASE": 0}, cbmc_flags=ARITH, kind="proof",
+              functions=["pixman_fixed_to_bilinear_weight"], domain="every 16.16 value; BILINEAR_INTERPOLATION_BITS == 7", timeout=120, min_props=4)]
+    grid = (0, 1, 37, 64, 90, 127) if th else (0, 1, 64, 127)
+    for ch in (0, 1, 2, 3):
+        for wx in grid:
+            for wy in grid:
+                if not th and (wx + wy + ch) % 2:     # quick: half of the 4x4 grid per channel
+                    continue
+                js.append(Job("bilin.interp.ch%d.w%d_%d" % (ch, wx, wy), "C08/bilin.c", defines={"VC_CASE": 1, "VC_CH": ch, "VC_WX": wx, "VC_WY": wy},
+                              cbmc_flags=ARITH, kind="bounded", bound="weight pair fixed to (%d,%d) of the 128x128 pairs" % (wx, wy),
+                              functions=["bilinear_interpolation"], domain="every tl,tr,bl,br in 2^128, channel %d" % ch, timeout=300, min_props=1))
+    return js
+
+
 def jobs(tier):
     th = tier != "quick"
     js = []
@@ -37,31 +169,51 @@ def jobs(tier):
                   domain="every int c, every size >= 1", timeout=120, min_props=3))
     js.append(Job("repeat.pad", "C08/repeat.c", defines={"VC_MODE": 2}, cbmc_flags=ARITH, kind="proof", functions=["repeat"],
                   domain="every int c, every size >= 1", timeout=120, min_props=2))
-    js.append(Job("repeat.reflect", "C08/repeat.c", defines={"VC_MODE": 3, "VC_SIZEMAX": "((1<<30)-1)"}, cbmc_flags=ARITH, kind="proof",
-                  functions=["repeat", "MOD"], domain="every c > INT32_MIN, every size in [1, 2^30-1]", timeout=900, min_props=3,
-                  assumptions=[A_REFLECT]))
     js.append(Job("repeat.reflect.size1_size2", "C08/repeat.c", defines={"VC_MODE": 5}, cbmc_flags=ARITH, kind="proof",
                   functions=["repeat", "MOD"], domain="size 1 and 2, every c > INT32_MIN: literal tables", timeout=120, min_props=2,
                   assumptions=[A_REFLECT]))
-    js.append(Job("repeat.mod", "C08/repeat.c", defines={"VC_MODE": 4, "VC_SIZEMAX": "2147483647"}, cbmc_flags=ARITH, kind="proof",
-                  functions=["MOD"], domain="every a > INT32_MIN, every b >= 1", timeout=900, min_props=2, assumptions=[A_REFLECT]))
     js.append(Job("repeat.normal.k4", "C08/repeat.c", defines={"VC_MODE": 1, "VC_K": 4}, unwind=7, cbmc_flags=ARITH, kind="bounded",
                   bound="|c| <= 4*size (the two while loops unwound 6 times)", functions=["repeat"],
-                  domain="every size >= 1, c in [-4*size, 4*size]", timeout=600, min_props=3))
+                  domain="every size >= 1, c in [-4*size, 4*size]", timeout=1200, min_props=3))
     js.append(Job("repeat.normal.range_termination", "C08/repeat_d.c", route="D", enforce="repeat", defines={"VC_CONG": 0},
                   loops=normal_loops(0), kind="proof", functions=["repeat"],
                   domain="every int c, every size >= 1 (loop contracts, no unwinding): TRUE, 0 <= r < size, both loops terminate",
                   timeout=300, min_props=10))
-    js.append(Job("repeat.normal.congruent", "C08/repeat_d.c", route="D", enforce="repeat", defines={"VC_CONG": 1},
-                  loops=normal_loops(1), kind="proof", functions=["repeat"],
-                  domain="every int c, every size >= 1 (loop contracts, no unwinding): r == c (mod size)",
-                  timeout=900, min_props=10))
+    for n in ((3, 7, 16) if not th else (3, 5, 7, 16, 100, 641, 65536, (1 << 30) - 1)):
+        js.append(Job("repeat.reflect.size%d" % n, "C08/repeat.c", defines={"VC_MODE": 3, "VC_SIZEFIX": n, "VC_SIZEMAX": "((1<<30)-1)"},
+                      cbmc_flags=ARITH, kind="bounded", bound="size fixed to %d (the query with a symbolic size does not finish)" % n,
+                      functions=["repeat", "MOD"], domain="every c > INT32_MIN", timeout=900, min_props=4, assumptions=[A_REFLECT]))
+        js.append(Job("repeat.mod.b%d" % (2 * n), "C08/repeat.c", defines={"VC_MODE": 4, "VC_SIZEFIX": 2 * n, "VC_SIZEMAX": "2147483647"},
+                      cbmc_flags=ARITH, kind="bounded", bound="b fixed to %d" % (2 * n), functions=["MOD"], domain="every a > INT32_MIN",
+                      timeout=600, min_props=2, assumptions=[A_REFLECT]))
+    js += bilin_jobs(tier)
+    js += iter_jobs(tier)
+    js += fetch_jobs(tier)
     return js
 
 
 META = {
     "level": "proof",
-    "trusted_base": ["spec/spec_sample.h: sample positions, weights, kernel alignment and repeat maps as written from rounding.txt and the property text"],
-    "assumptions": [],
-    "not_covered": [],
+    "trusted_base": [
+        "spec/spec_sample.h: sample positions, weights, kernel alignment and repeat maps as written from rounding.txt and the property text",
+        "harness/C08/c08.h: ghost image (free points + default) standing for an arbitrary a8r8g8b8 image behind fetch_pixel_32",
+        "uninterpreted-function abstraction (CBMC __CPROVER_uninterpreted_*) of repeat() [NORMAL/REFLECT] and bilinear_interpolation() inside the fetcher queries",
+    ],
+    "assumptions": [
+        "proof level is claimed for: repeat NONE/PAD (full domain), repeat NORMAL range+termination (loop contracts), bilinear weight, "
+        "nearest/bilinear fetchers (argument level); everything else is bounded as labelled per job",
+        "repeat NORMAL congruence: bounded |c| <= 4*size (the route-D loop contract with the invariant (c0 - c) % size == 0 does not finish in 900 s)",
+        "repeat REFLECT / MOD: one fixed size per query (symbolic remainder does not finish even for 8-bit sizes); size 1 and 2 by literal table",
+        "bilinear_interpolation: fixed weight pairs of a grid (symbolic weights do not finish, even 4x4 blocks)",
+        "format is a8r8g8b8 behind a ghost fetch_pixel_32 (formats: C10); only the 32-bit (non-wide) fetchers; no alpha map",
+    ],
+    "not_covered": [
+        "macro-generated scaled nearest/bilinear main loops (FAST_NEAREST_MAINLOOP*, FAST_BILINEAR_MAINLOOP*) of pixman-inlines.h / pixman-fast-path.c",
+        "SSE2 / SSSE3 scaled and affine fetchers (pixman-sse2.c, pixman-ssse3.c)",
+        "pixman-fast-path.c bits_image_fetch_{nearest,bilinear,separable_convolution}_affine_* and fast_fetch/cover iterators",
+        "pad_repeat_get_scanline_bounds (not reached in the time budget)",
+        "float (wide) fetchers: bits_image_fetch_pixel_bilinear_float, accum_float/reduce_float",
+        "fetch_pixel_general_32 alpha-map branch; __bits_image_fetch_general stepping of w beyond the first pixel in the quick tier",
+        "kernels larger than 3x3; pixman_transform_point_3d itself (C11)",
+    ],
 }
